@@ -8,6 +8,8 @@ import (
 	"strings"
 	"sync"
 	"sync/atomic"
+	"syscall"
+	"time"
 
 	"verif/core"
 	"verif/evmkit"
@@ -206,7 +208,15 @@ func execRun(dir string, cd *chainDef, ref *refChain, c cfg) (*runResult, *refCh
 		var er gtypes.ExecuteResult
 		var cr gtypes.CommitResult
 		var xerr error
-		if p, v, st := core.Try(func() { er, xerr = ch.Execute(blk) }); p {
+		finished, p, v, st := executeWatched(func() { er, xerr = ch.Execute(blk) })
+		if !finished {
+			// OnExecute is still running on its goroutine: the application object is abandoned
+			// (not stopped: Stop could block behind it), the run ends here
+			ch.App = nil
+			rr.Fail = &failure{h, "execute", kindNeverFinishes, "EVMApp.OnExecute", v}
+			return rr, built
+		}
+		if p {
 			rr.Fail = &failure{h, "execute", "panic", core.PanicSite(st), core.FirstLine(v)}
 			return rr, built
 		}
@@ -331,4 +341,78 @@ func txOutcomes(ch *evmkit.Chain, cd *chainDef, ref *refChain) []string {
 		}
 	}
 	return out
+}
+
+// ---------------------------------------------------------------- per-block watchdog
+//
+// "Obtains identical hashes" includes obtaining hashes at all: a replica whose
+// OnExecute never returns for a block the others executed never accepts the
+// next block.  Nothing inside the process can prove "never", so the decision
+// is made as conservatively as a running check can: OnExecute runs on a
+// goroutine of its own; the block is declared not finishing when it has been
+// running for watchdogMinS seconds AND the process has used (almost) no CPU
+// during the last watchdogIdleS seconds (everything is blocked - an overloaded
+// machine delays a runnable process, it does not stop its CPU clock for good), or
+// when it has been running for watchdogHardS seconds whatever the CPU clock says
+// (a livelock burns CPU).  The driver then repeats the whole run twice in new
+// processes; only 3 expiries out of 3 are reported (kind block-never-finishes).
+// A block of these chains executes in milliseconds.
+
+const kindNeverFinishes = "block-never-finishes"
+
+var (
+	watchdogMinS  = 60
+	watchdogIdleS = 10
+	watchdogHardS = 150
+)
+
+func init() {
+	if v := os.Getenv("C05_WATCHDOG_S"); v != "" { // development aid
+		fmt.Sscanf(v, "%d", &watchdogMinS)
+		watchdogHardS = watchdogMinS * 5 / 2
+	}
+}
+
+func cpuTime() time.Duration {
+	var ru syscall.Rusage
+	if syscall.Getrusage(syscall.RUSAGE_SELF, &ru) != nil {
+		return 0
+	}
+	return time.Duration(ru.Utime.Nano() + ru.Stime.Nano())
+}
+
+// executeWatched runs f under core.Try on a new goroutine.  finished=false:
+// the watchdog expired (msg says how), f is still running.
+func executeWatched(f func()) (finished, panicked bool, msg, stack string) {
+	type out struct {
+		p     bool
+		v, st string
+	}
+	done := make(chan out, 1)
+	go func() {
+		p, v, st := core.Try(f)
+		done <- out{p, fmt.Sprint(v), st}
+	}()
+	t0 := time.Now()
+	tick := time.NewTicker(time.Second)
+	defer tick.Stop()
+	var hist []time.Duration // CPU clock, one reading per second
+	for {
+		select {
+		case o := <-done:
+			return true, o.p, o.v, o.st
+		case <-tick.C:
+		}
+		hist = append(hist, cpuTime())
+		el := time.Since(t0)
+		if el >= time.Duration(watchdogHardS)*time.Second {
+			return false, false, fmt.Sprintf("OnExecute has not returned after %d s (process still using CPU)", watchdogHardS), ""
+		}
+		if el >= time.Duration(watchdogMinS)*time.Second && len(hist) > watchdogIdleS {
+			used := hist[len(hist)-1] - hist[len(hist)-1-watchdogIdleS]
+			if used < 200*time.Millisecond {
+				return false, false, fmt.Sprintf("OnExecute has not returned after %d s and the process used %d ms of CPU during the last %d s (every goroutine is blocked)", int(el/time.Second), int(used/time.Millisecond), watchdogIdleS), ""
+			}
+		}
+	}
 }
